@@ -152,6 +152,8 @@ def relevant(q0, q1, q2, i0, i1, i2):
     if a == 3 and not (i0 and i1 and i2):
         return False
     if PIN.get('empty_pool'):
+        if a == 2 and (q1 != q2):
+            return False              # plan-following, empty ready set: two of the three planned machines coincide (keeps the shard small)
         return not (i0 or i1 or i2)   # the ready set handed to run() is empty: the algorithm re-seeds it from the plan's roots
     if PIN.get('quick') and not PIN.get('free_i2') and not i2:
         return False                 # quick tier: third task always in the ready set (thorough: symbolic)
@@ -162,7 +164,7 @@ def relevant(q0, q1, q2, i0, i1, i2):
 
 def quick_statuses(s0, s1, s2):
     if PIN.get('empty_pool'):
-        return True
+        return s2 == 0 and (PIN['alg'] != 2 or s1 != 1)
     """quick tier, plan-following algorithms: only the first task may already be finished (thorough: all valid status vectors)"""
     if PIN.get('quick') and PIN['alg'] in (2, 3):
         return s1 == 0 and s2 == 0 and s0 != 1
